@@ -812,6 +812,80 @@ class HandlerEndToEnd(Suite):
         return Info(changed > 0, sorted(labels))
 
 
+class WildcardKey(Suite):
+    """A catch-all handler registered under the literal key '*/*' next to concrete types.  Only the documented clauses
+    are judged: a missing, empty or '*/*' content type means the DEFAULT type (whose exact key wins), and a concrete
+    content type that is an exact key gets that key's handler - through Handlers._resolve on a mapping that lives through
+    set / replace-the-catch-all / delete / copy steps, and end to end (WSGI and ASGI) with resp.content_type = '*/*'."""
+
+    name = 'wildcard_key'
+    exhaustive = True
+    budget = {'quick': 1, 'thorough': 1}
+
+    def cases(self, tier):
+        for default in ('application/json', 'text/plain'):
+            for first in ('wild', 'concrete'):
+                for steps in ([], ['replace_wild'], ['copy'], ['replace_wild', 'copy'], ['del_wild'], ['del_wild', 'set_wild']):
+                    for stack in ('resolve', 'wsgi', 'asgi'):
+                        yield {'default': default, 'first': first, 'steps': steps, 'stack': stack}
+
+    def run(self, case):
+        objs = make_handlers()
+        items = [('*/*', objs[0]), ('application/json', objs[1]), ('text/plain', objs[2])]
+        if case['first'] == 'concrete':
+            items = items[1:] + items[:1]
+        real = Handlers(dict(items))
+        model = dict(items)
+        for st_ in case['steps']:
+            if st_ == 'replace_wild':
+                real['*/*'] = objs[3]
+                model['*/*'] = objs[3]
+            elif st_ == 'set_wild':
+                real['*/*'] = objs[4]
+                model['*/*'] = objs[4]
+            elif st_ == 'del_wild':
+                del real['*/*']
+                del model['*/*']
+            elif st_ == 'copy':
+                real = real.copy()
+        dtext = case['default']
+        ctx = 'mapping %r, default %r, steps %r' % (model, dtext, case['steps'])
+        probes = [('*/*', model[dtext]), (None, model[dtext]), ('', model[dtext]), ('application/json', model['application/json']),
+                  ('text/plain', model['text/plain'])]
+        if case['stack'] == 'resolve':
+            for ptext, exp in probes:
+                got = real._resolve(ptext, dtext)[0]
+                if got is not exp:
+                    raise Violation('resolve_mismatch', '%s: _resolve(%r, %r) returned %r, the rule designates %r' % (ctx, ptext, dtext, got, exp))
+        else:
+            asgi_stack = case['stack'] == 'asgi'
+            app = (falcon_asgi.App if asgi_stack else falcon.App)(media_type=dtext)
+            app.req_options.media_handlers = real
+            app.resp_options.media_handlers = real
+            res = _AsyncResource() if asgi_stack else _Resource()
+            app.add_route('/r', res)
+            for ptext, exp in probes:
+                if ptext == '':
+                    continue
+                res.seen = None
+                res.rct = ptext
+                headers = [('Content-Length', '1')] + ([('Content-Type', ptext)] if ptext else [])
+                if asgi_stack:
+                    result = asgi_driver.call(app, asgi_driver.build_scope('POST', '/r', headers=headers), asgi_driver.body_events(b'x'))
+                else:
+                    result = wsgi.call(app, wsgi.build_environ('POST', '/r', headers=headers, body=b'x'))
+                if result.error is not None:
+                    raise result.error
+                want = ('<%s>' % exp.tag)
+                if res.seen != ('media', want):
+                    raise Violation('get_media_handler', '%s %s: Content-Type %r: req.get_media() -> %r, the rule designates %r'
+                                    % (case['stack'], ctx, ptext, res.seen, exp))
+                if result.code != 200 or result.body != want.encode():
+                    raise Violation('render_handler', '%s %s: response content type %r: status %s body %r, the rule designates %r'
+                                    % (case['stack'], ctx, ptext, result.code, result.body, exp))
+        return Info('*/*' in model, ['stack:' + case['stack'], 'wild_key:' + ('present' if '*/*' in model else 'deleted')])
+
+
 class HandlerCopyEmpty(Suite):
     """Separately counted class: copy() of a mapping that was emptied (by clear, delete, pop or
     popitem; initial content 1 key, 2 keys or the defaults).  The documented contract of copy()
@@ -863,7 +937,7 @@ class HandlerCopyEmpty(Suite):
         return Info(True, ['emptied_by:' + case['how'], 'then:' + case['then']])
 
 
-SUITES = [Accept(), AcceptInvalid(), AcceptQuotedSpecial(), HandlerHistory(), HandlerEndToEnd(), HandlerCopyEmpty()]
+SUITES = [Accept(), AcceptInvalid(), AcceptQuotedSpecial(), HandlerHistory(), HandlerEndToEnd(), WildcardKey(), HandlerCopyEmpty()]
 
 
 # ------------------------------------------------------------------ known findings
